@@ -585,11 +585,25 @@ func (s *sess) checkAcceptorCtor() {
 			continue
 		}
 		nOK++
-		need := []string{"settings.HeartBtLimits != nil", "settings.HeartBtLimits.Min <= settings.HeartBtLimits.Max", "settings.HeartBtLimits.Max != 0", "settings.HeartBtLimits.Min != 0", "len(params.AllowedEncryptedMethods) != 0"}
+		// the parameters by their types (their names are the author's business)
+		settings, params := "settings", "params"
+		for _, prm := range fn.Params {
+			switch {
+			case an.TypeIs(prm.Type(), "session", "LogonSettings"):
+				settings = prm.Name()
+			case an.TypeIs(prm.Type(), "session", "Opts"):
+				params = prm.Name()
+			}
+		}
+		need := []string{settings + ".HeartBtLimits != nil", settings + ".HeartBtLimits.Min <= " + settings + ".HeartBtLimits.Max", settings + ".HeartBtLimits.Max != 0", settings + ".HeartBtLimits.Min != 0"}
 		for _, n := range need {
 			if !p.Has(n) {
 				bad = append(bad, "a session is returned without checking "+n+" ("+p.CondString()+")")
 			}
+		}
+		// a non-empty method set, in any spelling: an empty one cannot reach this return
+		if an.PathFeasible(p, an.Atom{L: "len(" + params + ".AllowedEncryptedMethods)", Rel: "==", R: "0"}) {
+			bad = append(bad, "a session is returned without checking len("+params+".AllowedEncryptedMethods) != 0 ("+p.CondString()+")")
 		}
 		// the acceptor's LogonHandler is installed and the state is WaitingLogon
 	}
